@@ -1614,35 +1614,46 @@ fn part_enabled(name: &str) -> bool {
     }
 }
 
+/// The session keeps at most 200 oracle failures; several parts raise known-finding oracles once per request, which
+/// would fill the list and silently drop a NEW failure of a later part. After every part: keep the first 2 failures
+/// per (oracle name, font label) of that part — known findings are keyed by oracle + font, so a failure on another
+/// font or of another oracle always stays visible — and count the rest.
+fn prune_failures(s: &mut Session, from: usize) -> usize {
+    let mut seen: BTreeMap<(String, String), usize> = BTreeMap::new();
+    let tail: Vec<_> = s.oracle_failures.drain(from..).collect();
+    for f in tail {
+        let font = f.input.split(' ').next().unwrap_or("").to_string();
+        let n = seen.entry((f.oracle.clone(), font)).or_insert(0);
+        *n += 1;
+        if *n <= 2 {
+            s.oracle_failures.push(f);
+        } else {
+            s.count(&format!("oracle-failures-pruned:{}", f.oracle));
+        }
+    }
+    s.oracle_failures.len()
+}
+
 fn run(cfg: &Config, s: &mut Session) {
-    if part_enabled("core") {
-        run_core(cfg, s);
+    let mut mark = 0usize;
+    macro_rules! part {
+        ($name:expr, $body:expr) => {
+            if part_enabled($name) {
+                $body;
+                mark = prune_failures(s, mark);
+            }
+        };
     }
-    // table subsetters beyond the glyph-level core (own RNG streams: independent of the sections above)
-    if part_enabled("locax") {
-        locax::run(cfg, s, &mut Rng::new(cfg.seed ^ 0x10CA));
-    }
-    if part_enabled("cmap") {
-        cmapx::run(cfg, s, &mut Rng::new(cfg.seed ^ 0xC3A9));
-    }
-    if part_enabled("hvar") {
-        hvar::run(cfg, s, &mut Rng::new(cfg.seed ^ 0x48564152));
-    }
-    if part_enabled("gvar") {
-        gvar::run(cfg, s, &mut Rng::new(cfg.seed ^ 0x67766172));
-    }
-    if part_enabled("outline") {
-        outline::run(cfg, s, &mut Rng::new(cfg.seed ^ 0x6F75746C));
-    }
-    if part_enabled("post") {
-        postx::run(cfg, s, &mut Rng::new(cfg.seed ^ 0x706F7374));
-    }
-    if part_enabled("colr") {
-        colrx::run(cfg, s, &mut Rng::new(cfg.seed ^ 0x434F4C52));
-    }
-    if part_enabled("layout") {
-        layoutx::run(cfg, s, &mut Rng::new(cfg.seed ^ 0x4C41594F));
-    }
+    part!("core", run_core(cfg, s));
+    part!("locax", locax::run(cfg, s, &mut Rng::new(cfg.seed ^ 0x10CA)));
+    part!("cmap", cmapx::run(cfg, s, &mut Rng::new(cfg.seed ^ 0xC3A9)));
+    part!("hvar", hvar::run(cfg, s, &mut Rng::new(cfg.seed ^ 0x48564152)));
+    part!("gvar", gvar::run(cfg, s, &mut Rng::new(cfg.seed ^ 0x67766172)));
+    part!("outline", outline::run(cfg, s, &mut Rng::new(cfg.seed ^ 0x6F75746C)));
+    part!("post", postx::run(cfg, s, &mut Rng::new(cfg.seed ^ 0x706F7374)));
+    part!("colr", colrx::run(cfg, s, &mut Rng::new(cfg.seed ^ 0x434F4C52)));
+    part!("layout", layoutx::run(cfg, s, &mut Rng::new(cfg.seed ^ 0x4C41594F)));
+    let _ = mark;
 }
 
 fn run_core(cfg: &Config, s: &mut Session) {
